@@ -1552,6 +1552,18 @@ class Evaluator:
                 out = [self.apply_lambda(pos[0], [x], fr) for x in seq]
                 if all(o is not None for o in out):
                     return out
+            if seq is not None and n == "filter":
+                keep = []
+                for x in seq:
+                    c = self.apply_lambda(pos[0], [x], fr)
+                    c = tm.truth(c) if c is not None else None
+                    if c is True:
+                        keep.append(x)
+                    elif c is not False:
+                        keep = None
+                        break
+                if keep is not None:
+                    return keep
             d = fr.loopdepth
             fr.loopdepth = d + 1
             try:
